@@ -984,11 +984,13 @@ DLLEXPORT size_t tj3YUVBufSize(int width, int align, int height, int subsamp)
   nc = (subsamp == TJSAMP_GRAY ? 1 : 3);
   for (i = 0; i < nc; i++) {
     int pw = tj3YUVPlaneWidth(i, width, subsamp);
-    int stride = PAD(pw, align);
+    unsigned long long stride = PAD((unsigned long long)pw, align);
     int ph = tj3YUVPlaneHeight(i, height, subsamp);
 
     if (pw == 0 || ph == 0) return 0;
-    else retval += (unsigned long long)stride * ph;
+    if (stride > (unsigned long long)INT_MAX)
+      THROWG("Image or row alignment is too large", 0);
+    retval += stride * ph;
   }
 #if ULLONG_MAX > ULONG_MAX
   if (retval > (unsigned long long)((unsigned long)-1))
@@ -1028,7 +1030,8 @@ DLLEXPORT size_t tj3YUVPlaneSize(int componentID, int width, int stride,
   unsigned long long retval = 0;
   int pw, ph;
 
-  if (width < 1 || height < 1 || subsamp < 0 || subsamp >= TJ_NUMSAMP)
+  if (width < 1 || height < 1 || subsamp < 0 || subsamp >= TJ_NUMSAMP ||
+      stride == INT_MIN)
     THROWG("Invalid argument", 0);
 
   pw = tj3YUVPlaneWidth(componentID, width, subsamp);
@@ -1451,6 +1454,8 @@ DLLEXPORT int tj3CompressFromYUV8(tjhandle handle,
   pw0 = tj3YUVPlaneWidth(0, width, this->subsamp);
   ph0 = tj3YUVPlaneHeight(0, height, this->subsamp);
   srcPlanes[0] = srcBuf;
+  if (pw0 == 0 || ph0 == 0 || pw0 > INT_MAX - (align - 1))
+    THROW("Image or row alignment is too large");
   strides[0] = PAD(pw0, align);
   if (this->subsamp == TJSAMP_GRAY) {
     strides[1] = strides[2] = 0;
@@ -1709,6 +1714,8 @@ DLLEXPORT int tj3EncodeYUV8(tjhandle handle, const unsigned char *srcBuf,
   pw0 = tj3YUVPlaneWidth(0, width, this->subsamp);
   ph0 = tj3YUVPlaneHeight(0, height, this->subsamp);
   dstPlanes[0] = dstBuf;
+  if (pw0 == 0 || ph0 == 0 || pw0 > INT_MAX - (align - 1))
+    THROW("Image or row alignment is too large");
   strides[0] = PAD(pw0, align);
   if (this->subsamp == TJSAMP_GRAY) {
     strides[1] = strides[2] = 0;
@@ -2375,6 +2382,8 @@ DLLEXPORT int tj3DecompressToYUV8(tjhandle handle,
   pw0 = tj3YUVPlaneWidth(0, width, this->subsamp);
   ph0 = tj3YUVPlaneHeight(0, height, this->subsamp);
   dstPlanes[0] = dstBuf;
+  if (pw0 == 0 || ph0 == 0 || pw0 > INT_MAX - (align - 1))
+    THROW("Image or row alignment is too large");
   strides[0] = PAD(pw0, align);
   if (this->subsamp == TJSAMP_GRAY) {
     strides[1] = strides[2] = 0;
@@ -2697,6 +2706,8 @@ DLLEXPORT int tj3DecodeYUV8(tjhandle handle, const unsigned char *srcBuf,
   pw0 = tj3YUVPlaneWidth(0, width, this->subsamp);
   ph0 = tj3YUVPlaneHeight(0, height, this->subsamp);
   srcPlanes[0] = srcBuf;
+  if (pw0 == 0 || ph0 == 0 || pw0 > INT_MAX - (align - 1))
+    THROW("Image or row alignment is too large");
   strides[0] = PAD(pw0, align);
   if (this->subsamp == TJSAMP_GRAY) {
     strides[1] = strides[2] = 0;
